@@ -162,6 +162,9 @@ def variant_join_sites(res, body):
             site, val = c[1][3][1], c[1]
         elif tag(c) == "phi" and len(c) > 4 and c[4] and all(o is not None for o in c[4]) and all(isinstance(a, Lin) and a.is_const() for a in c[3]):
             site, val = c[1], c          # a flag joined from constants (`let give_back = match k { A => true, B => false }`)
+        elif (tag(c) == "phi" and len(c) > 4 and c[4] and all(o is not None for o in c[4]) and any(isinstance(a, Lin) and a.is_const() for a in c[3])
+              and all((isinstance(a, Lin) and a.is_const()) or tag(a) in ("cmp", "not", "booland", "boolor") for a in c[3])):
+            site, val = c[1], c          # a flag joined from constants and comparisons (`let empty = a == 0 || b == 0;` tested later)
         elif (tag(c) == "discr" and tag(c[1]) == "phi" and len(c[1]) > 4 and c[1][4] and all(o is not None for o in c[1][4])
               and any(tag(a) == "variant" for a in c[1][3])):
             # an Option / enum value joined from constructions and other values (`match k { A => Some(p).filter(..), B => None, C => Some(q) }`)
@@ -280,6 +283,27 @@ def block_dnf(ev, res, body, bb, lit=None, cap=48, _memo=None, _back=None, stop=
                                         pd2.append(c | frozenset(extra))
                             pd = pd2
                             continue
+                        if tag(v) == "phi" and tag(cond) == "phi" and not all(isinstance(a, Lin) and a.is_const() for a in v[3]):
+                            # per incoming edge: a constant decides the test, a comparison is tested itself
+                            pd2 = []
+                            for c in pd:
+                                for a_, o_ in zip(v[3], v[4]):
+                                    if ("via", jb, o_) not in c:
+                                        continue
+                                    if isinstance(a_, Lin) and a_.is_const():
+                                        if _rel_sat(rel, a_.c):
+                                            pd2.append(c)
+                                        continue
+                                    if edge_lits is not None:
+                                        for conj in guard_dnf_pairs([(a_, rel)]):
+                                            ls, inf = edge_lits(conj)
+                                            if not inf:
+                                                pd2.append(c | frozenset(ls))
+                                    else:
+                                        for conj in guard_dnf([(a_, rel)]):
+                                            pd2.append(c | frozenset(x for x in ((lit(f) if lit is not None else f) for f in conj) if x is not None))
+                            pd = pd2
+                            continue
                         ok_orig = _matching_origins(ev, v, rel)
                         pd = [c for c in pd if any(("via", jb, o) in c for o in ok_orig)]
                     else:
@@ -349,3 +373,19 @@ def bool_dnf(ev, res, body, t, truth=True, depth=0):
                             out.append(c)
             return out
     return guard_dnf([(t, ("eq", 1 if truth else 0))])
+
+
+def expand_bool_joins(ev, res, body, d, post=None, cap=256):
+    """Replaces, in every conjunction of the DNF, a literal about a boolean joined from several edges (`let empty = a == 0 || b == 0;` tested later) by the ways
+    that boolean can have the stated value."""
+    out = []
+    for c in d:
+        alts = [c]
+        for f in sorted(c, key=repr):
+            if f[0] == "bool" and tag(f[1]) in ("phi", "not"):
+                exp = bool_dnf(ev, res, body, f[1], f[2])
+                if post is not None:
+                    exp = [frozenset(y for y in (post(x) for x in a) if y is not None) for a in exp]
+                alts = [(x - {f}) | y for x in alts for y in exp if not conj_unsat((x - {f}) | y)][:cap]
+        out.extend(alts)
+    return out
